@@ -641,10 +641,12 @@ func snapshot(root string) (map[string]obs, error) {
 		case fi.IsDir():
 			out[rel] = obs{"d", unixMode(fi.Mode()), ""}
 			if os.Getuid() != 0 && fi.Mode().Perm()&0o500 != 0o500 {
-				// the owner looks into a directory it may not read or search: the mode is recorded, then opened up
+				// the owner looks into a directory it may not read or search: the mode is recorded,
+				// opened up, and put back afterwards (the directory may be looked at again)
 				if err := os.Chmod(p, fi.Mode().Perm()|0o700); err != nil {
 					return err
 				}
+				defer os.Chmod(p, fi.Mode().Perm()|special(unixMode(fi.Mode())))
 			}
 			ents, err := os.ReadDir(p)
 			if err != nil {
@@ -662,6 +664,7 @@ func snapshot(root string) (map[string]obs, error) {
 		case fi.Mode().IsRegular():
 			if os.Getuid() != 0 && fi.Mode().Perm()&0o400 == 0 {
 				os.Chmod(p, fi.Mode().Perm()|0o400)
+				defer os.Chmod(p, fi.Mode().Perm()|special(unixMode(fi.Mode())))
 			}
 			data, err := os.ReadFile(p)
 			if err != nil {
